@@ -453,7 +453,13 @@ type worker struct {
 	done      sync.Once // releases the pool's wait group exactly once (worker exit or abandonment)
 }
 
+// maxSuspects: goroutines cannot be killed, so every hang keeps a core busy for the rest of the run.
+// After this many watchdog hits the exploration stops (remaining cases are dropped) and the run
+// goes straight to re-running the first suspects alone: a hang defect is reported, not suffered.
+const maxSuspects = 12
+
 type pool struct {
+	tripped atomic.Bool
 	jobs    chan job
 	c       *collector
 	wg      sync.WaitGroup
@@ -482,6 +488,9 @@ func (p *pool) spawn() {
 		defer w.done.Do(p.wg.Done)
 		for j := range p.jobs {
 			j := j
+			if p.tripped.Load() {
+				continue // exploration aborted: drain
+			}
 			p.c.noteDistinct(j.src)
 			for mi, m := range modes {
 				s := &suspect{j: j, mode: mi}
@@ -524,6 +533,9 @@ func (p *pool) monitor() {
 				if s := w.cur.Load(); s != nil {
 					p.c.mu.Lock()
 					p.c.suspects = append(p.c.suspects, *s)
+					if len(p.c.suspects) >= maxSuspects {
+						p.tripped.Store(true)
+					}
 					p.c.mu.Unlock()
 				}
 				p.spawn()            // replaced first, so the wait group never drops to zero early ...
@@ -541,7 +553,10 @@ func (p *pool) finish() {
 
 // rerunSuspects re-runs every watchdog hit alone with the long limit before it counts.
 func (c *collector) rerunSuspects(limit time.Duration) {
-	for _, s := range c.suspects {
+	for i, s := range c.suspects {
+		if i >= 3 && len(c.suspects) >= maxSuspects {
+			break // aborted exploration: the first few confirm the hang
+		}
 		s := s
 		done := make(chan observation, 1)
 		go func() { done <- compileOnce(s.j.src, modes[s.mode].m) }()
@@ -867,6 +882,7 @@ func main() {
 	rep.Extra["pylex_claims_by_class"] = c.lexClass
 	rep.Extra["pylex_agreements_by_class"] = c.lexAgree
 	rep.Extra["watchdog_hits_rerun"] = len(c.suspects)
+	rep.Extra["exploration_aborted_after_watchdog_hits"] = p.tripped.Load()
 	rep.Extra["slowest_compile_ms"] = c.slowest.Milliseconds()
 	rep.Extra["slowest_compile_source"] = c.slowSrc
 	rep.Assumptions = []string{
